@@ -244,17 +244,23 @@ func ReadPatchString(s string) (Diff, error) {
 		return diff, nil
 	}
 	var e DiffElement
+	// Where the patch tested the after context of the last hunk.
+	at, lastAt := noAfterTest, noAfterTest
 	for {
 		if len(patch) == 0 {
+			if err := checkAfterPosition(diff, lastAt); err != nil {
+				return nil, err
+			}
 			return diff, nil
 		}
-		e, patch, err = readPatchDiffElement(patch)
+		e, at, patch, err = readPatchDiffElement(patch)
 		if err != nil {
 			return nil, err
 		}
 		// Coalece diff elements on the same path.
 		if len(diff) == 0 {
 			diff = append(diff, e)
+			lastAt = at
 		} else {
 			i := len(diff) - 1
 			// A removal read after an addition starts a new hunk: within
@@ -270,10 +276,39 @@ func ReadPatchString(s string) (Diff, error) {
 					diff[i].Add = append(e.Add, diff[i].Add...)
 				}
 			} else {
+				// The last hunk is complete.
+				if err := checkAfterPosition(diff, lastAt); err != nil {
+					return nil, err
+				}
 				diff = append(diff, e)
+				lastAt = at
 			}
 		}
 	}
+}
+
+// noAfterTest says that a hunk was read without a test of its after
+// context.
+const noAfterTest PathIndex = -2
+
+// checkAfterPosition rejects a patch which tests the after context of
+// the last hunk anywhere but directly behind the elements the hunk
+// removes. A JSON Patch evaluates that test before it edits the array.
+// The hunk compares the after context once its removals are done. Both
+// look at the same element only if the test sits at index plus removals.
+func checkAfterPosition(diff Diff, at PathIndex) error {
+	if len(diff) == 0 || at == noAfterTest {
+		return nil
+	}
+	e := diff[len(diff)-1]
+	if len(e.Path) == 0 {
+		return fmt.Errorf("JSON Patch after context test without an array index")
+	}
+	index, ok := e.Path[len(e.Path)-1].(PathIndex)
+	if !ok || at != index+PathIndex(len(e.Remove)) {
+		return fmt.Errorf("JSON Patch after context test must directly follow the removed elements")
+	}
+	return nil
 }
 
 // hasPatchContext tells whether the element carries context of its
@@ -445,65 +480,86 @@ func pointerParent(s string) string {
 	return s
 }
 
-func readPatchDiffElement(patch []patchElement) (DiffElement, []patchElement, error) {
+func readPatchDiffElement(patch []patchElement) (DiffElement, PathIndex, []patchElement, error) {
 	d := DiffElement{}
+	at := noAfterTest
 	if len(patch) == 0 {
-		return d, nil, fmt.Errorf("unexpected end of JSON Patch")
+		return d, at, nil, fmt.Errorf("unexpected end of JSON Patch")
 	}
 	p := patch[0]
 	var err error
 	// Maybe read before and after context
 	if p.Op == "test" {
+		tests := patch
 		patch, err = setPatchDiffElementContext(patch, &d)
 		if len(patch) == 0 {
-			return d, nil, fmt.Errorf("unexpected end of JSON Patch")
+			return d, at, nil, fmt.Errorf("unexpected end of JSON Patch")
+		}
+		if err != nil {
+			return d, at, nil, err
 		}
 		p = patch[0]
+		// The last test read as context is the after context.
+		afterTest := tests[0]
+		if len(tests)-len(patch) > 1 && len(tests) > 1 {
+			afterTest = tests[1]
+		}
+		if hasPatchContext(DiffElement{After: d.After}) {
+			afterPath, err := readPointer(afterTest.Path)
+			if err != nil {
+				return d, at, nil, err
+			}
+			if len(afterPath) > 0 {
+				if i, ok := afterPath[len(afterPath)-1].(PathIndex); ok {
+					at = i
+				}
+			}
+		}
 	}
 	if err != nil {
-		return d, nil, err
+		return d, at, nil, err
 	}
 	switch p.Op {
 	case "test":
 		// Read path.
 		d.Path, err = readPointer(p.Path)
 		if err != nil {
-			return d, nil, err
+			return d, at, nil, err
 		}
 		// Read value to test and remove.
 		testValue, err := NewJsonNode(p.Value)
 		if err != nil {
-			return d, nil, err
+			return d, at, nil, err
 		}
 		d.Remove = []JsonNode{testValue}
 		// Validate test and remove are paired because jd remove is strict.
 		if len(patch) == 1 || patch[1].Op != "remove" {
-			return d, nil, fmt.Errorf("JSON Patch test op must be followed by a remove op")
+			return d, at, nil, fmt.Errorf("JSON Patch test op must be followed by a remove op")
 		}
 		if patch[1].Path != p.Path {
-			return d, nil, fmt.Errorf("JSON Patch remove op must have the same path as test op")
+			return d, at, nil, fmt.Errorf("JSON Patch remove op must have the same path as test op")
 		}
 		removeValue, err := NewJsonNode(patch[1].Value)
 		if err != nil {
-			return d, nil, err
+			return d, at, nil, err
 		}
 		if !testValue.Equals(removeValue) {
-			return d, nil, fmt.Errorf("JSON Patch remove op must have the same value as test op")
+			return d, at, nil, fmt.Errorf("JSON Patch remove op must have the same value as test op")
 		}
-		return d, patch[2:], nil
+		return d, at, patch[2:], nil
 	case "add":
 		d.Path, err = readPointer(p.Path)
 		if err != nil {
-			return d, nil, err
+			return d, at, nil, err
 		}
 		addValue, err := NewJsonNode(p.Value)
 		if err != nil {
-			return d, nil, err
+			return d, at, nil, err
 		}
 		d.Add = []JsonNode{addValue}
-		return d, patch[1:], nil
+		return d, at, patch[1:], nil
 	default:
-		return d, nil, fmt.Errorf("invalid JSON Patch: must be test/remove or add ops")
+		return d, at, nil, fmt.Errorf("invalid JSON Patch: must be test/remove or add ops")
 	}
 }
 
